@@ -20,7 +20,7 @@ print(out[-3000:])
 print("lean build: %.0fs ok=%s" % (s, ok))
 if not ok:
     sys.exit(1)
-ok, out, s = vlib.cargo_build()
+ok, out, s, _ = vlib.cargo_build()
 print(out[-3000:])
 print("cargo build: %.0fs ok=%s" % (s, ok))
 sys.exit(0 if ok else 1)
